@@ -29,6 +29,16 @@ def cases(tier, seed):
         con = common.thin(con, 4)
     out = common.add_algs(plan + buf + con, lambda c: common.shipped(
         c, lvl, "diag", greedy=(tier == "thorough")))
+    if tier == "thorough":
+        out += common.add_algs(common.buffer3_scope(), lambda c: [
+            {"kind": "queue"}, {"kind": "batch", "p": 1, "min": 1},
+            {"kind": "batch", "p": 2, "min": 1}])
+        out += common.add_algs(common.contend3(lvl),
+                               lambda c: common.shipped(c, lvl, "diag"))
+        # task delays create other load states at the moment of a start
+        out = [(sc, dict(c, delay={"mode": "choice", "arity": 3})
+                if c["alg"]["kind"] in ("queue", "batch") else c)
+               for sc, c in out]
     return common.rotate(out, seed)
 
 
@@ -40,7 +50,8 @@ def run(rep, tier, seed):
         "room is judged per observation against current free space (literal "
         "reading; cumulative buffer accounting is C07's concern)"]
     cs = cases(tier, seed)
-    e1.sweep(rep, cs, monitors_for, {})
+    e1.sweep(rep, cs, monitors_for,
+             {"delay": 1} if tier == "thorough" else {})
     e1.conformance(rep, cs[::max(1, len(cs) // 40)])
 
 
